@@ -17,12 +17,17 @@ def run(rep, tier, seed):
     rep.add_tlc("ObserveImpl(F8: cyclic mutation allowed - expected to violate TracksReachable)", res3, must_pass=False)
     rep.extra["F8_reproduced_by_TLC_on_ObserveImpl"] = (res3.violated == "TracksReachable")
     n = oc.run_for(rep, tier, seed, "C08")
+    # a filtered link followed by more, on an object whose matching link traits grow at run time: FilteredLinks.tla
+    from . import filtered_links
+    filtered_links.run_for(rep, tier, seed)
     rep.rule = ("TLC: (a) ObserveMC - laws of the declarative reachability semantics over all heaps of the bound; (b) "
                 "ObserveImpl - the incremental hook maintenance refines the declarative definition on all histories "
                 "without self-loops; (c) %d recorded steps of seeded histories on a real pool of 4 interlinked objects "
                 "(child / kids list / d dict with coercing keys, duplicates, sharing, cycles) under up to 3 registrations "
                 "from a 16-expression catalogue, each step with the handler calls during the change and a reachability "
-                "probe of every object afterwards, judged by TLC against Observe.tla" % n)
+                "probe of every object afterwards, judged by TLC against Observe.tla; (d) histories on an object observed with "
+                "'+tracked.value' whose matching link traits are reassigned, shared and extended with add_trait, judged against "
+                "FilteredLinks.tla" % n)
 
 
 def replay(rep, path):
